@@ -231,6 +231,18 @@ func leafSites() []leafSite {
 		bodySite("body.map", func(l J) (J, J) {
 			return J{"type": "object", "additionalProperties": cloneJ(l)}, nil
 		}, func(w interface{}) interface{} { return J{"k": w} }),
+		// own properties next to an allOf whose $ref member holds the edited leaf
+		bodySite("body.props+allOf-ref", func(l J) (J, J) {
+			return J{"type": "object", "properties": J{"own": J{"type": "string"}}, "allOf": A{J{"$ref": "#/definitions/Base"}}},
+				J{"Base": J{"type": "object", "properties": J{"p": cloneJ(l)}}}
+		}, func(w interface{}) interface{} { return J{"own": "x", "p": w} }),
+		// the edited leaf sits in a definition reached through a nested, textually unchanged $ref
+		bodySite("body.ref>prop-ref", func(l J) (J, J) {
+			return J{"$ref": "#/definitions/Outer"}, J{"Outer": J{"type": "object", "properties": J{"r": J{"$ref": "#/definitions/Inner"}}}, "Inner": J{"type": "object", "properties": J{"p": cloneJ(l)}}}
+		}, func(w interface{}) interface{} { return J{"r": J{"p": w}} }),
+		bodySite("body.ref>array-of-ref", func(l J) (J, J) {
+			return J{"$ref": "#/definitions/Outer"}, J{"Outer": J{"type": "object", "properties": J{"l": J{"type": "array", "items": J{"$ref": "#/definitions/Inner"}}}}, "Inner": J{"type": "object", "properties": J{"p": cloneJ(l)}}}
+		}, func(w interface{}) interface{} { return J{"l": A{J{"p": w}}} }),
 	}
 }
 
@@ -442,6 +454,41 @@ func responseEdits() []EditPair {
 	add("response enum value added", "items",
 		withResp("200", J{"description": "ok", "schema": J{"type": "array", "items": cloneJ(e2)}}, nil),
 		withResp("200", J{"description": "ok", "schema": J{"type": "array", "items": cloneJ(e3)}}, nil))
+	// the same two response-side edits at sites where the changed schema is reached indirectly
+	type respSite struct {
+		name string
+		wrap func(inner J) (J, J)
+	}
+	rs := []respSite{
+		{"ref>prop-ref", func(in J) (J, J) {
+			return J{"$ref": "#/definitions/R"}, J{"R": J{"type": "object", "properties": J{"n": J{"$ref": "#/definitions/N"}}}, "N": in}
+		}},
+		{"ref>array-of-ref", func(in J) (J, J) {
+			return J{"$ref": "#/definitions/R"}, J{"R": J{"type": "object", "properties": J{"l": J{"type": "array", "items": J{"$ref": "#/definitions/N"}}}}, "N": in}
+		}},
+		{"prop-ref", func(in J) (J, J) {
+			return J{"type": "object", "properties": J{"n": J{"$ref": "#/definitions/N"}}}, J{"N": in}
+		}},
+		{"props+allOf-ref", func(in J) (J, J) {
+			return J{"type": "object", "properties": J{"own": J{"type": "string"}}, "allOf": A{J{"$ref": "#/definitions/B"}}}, J{"B": in}
+		}},
+		{"allOf-ref+inline", func(in J) (J, J) {
+			return J{"allOf": A{J{"$ref": "#/definitions/B"}, J{"type": "object", "properties": J{"own": J{"type": "string"}}}}}, J{"B": in}
+		}},
+		{"map-of-ref", func(in J) (J, J) {
+			return J{"type": "object", "additionalProperties": J{"$ref": "#/definitions/N"}}, J{"N": in}
+		}},
+	}
+	for _, site := range rs {
+		for _, code := range []string{"200", "default"} {
+			so, do := site.wrap(cloneJ(o2))
+			sn, dn := site.wrap(cloneJ(o1))
+			add("response property removed", site.name+"/"+code, withResp(code, J{"description": "r", "schema": so}, do), withResp(code, J{"description": "r", "schema": sn}, dn))
+			eo, deo := site.wrap(J{"type": "object", "properties": J{"s": cloneJ(e2)}})
+			en, den := site.wrap(J{"type": "object", "properties": J{"s": cloneJ(e3)}})
+			add("response enum value added", site.name+"/"+code, withResp(code, J{"description": "r", "schema": eo}, deo), withResp(code, J{"description": "r", "schema": en}, den))
+		}
+	}
 	return out
 }
 
@@ -463,7 +510,7 @@ func EditPairs(tier string) []EditPair {
 			if e.NoBody && strings.HasPrefix(s.Name, "body.") {
 				continue
 			}
-			if tier != "thorough" && n >= 2 && s.Name != "body.prop1" && s.Name != "items" {
+			if tier != "thorough" && n >= 2 && s.Name != "body.prop1" && s.Name != "items" && s.Name != "body.props+allOf-ref" && s.Name != "body.ref>prop-ref" && s.Name != "body.ref>array-of-ref" {
 				continue
 			}
 			n++
